@@ -88,7 +88,7 @@ Definition c19_model_step (t : pw_timing) (s : pm_state) (now : Z) (op : c19_rop
 
 Definition c19_msg_of (o : pm_out) : list (Z * Z * Z) :=
   match o with
-  | PMNewProxy n v => [(1, n, v)]
+  | PMNewProxy n v => [(1, n, 0)]   (* which configuration the wrapper holds is compared through the status rows *)
   | PMCloseProxy n => [(2, n, 0)]
   | PMPanic _ => [(8, 0, 0)]
   | _ => []
